@@ -102,6 +102,8 @@ def run(ctx):
                 add(k, "%s/parse" % rec["id"], cell, rec["d_parse"])
                 add(k, "%s/toml-sorted" % rec["id"], cell, rec["d_toml_sorted"])
                 add("depth" if tag == "depth" else "order", "%s/toml-order" % rec["id"], cell, rec["d_toml_order"])
+                if tag == "battery":
+                    add("orderlaw", "%s/order-law" % rec["id"], cell, rec["order_law"])
         outp = ctx.path("build-%s.ev" % cell)
         ctx.harness(h, ["build-events", "--in", sp, "--out", outp])
         for rec in core.iter_ndjson(outp):
